@@ -335,6 +335,49 @@ def apiHandle (s : State) (rest : String) : State × String :=
         else if op = "cdar" then [true, false] else [false, false, true]
       resHandle s (path s r steps)
     | none => (s, "BADCMD")
+  else if op = "llen" then
+    match handleOf s a1 with
+    | some r => (s, "N " ++ toString (s.heap.length r))
+    | none => (s, "BADCMD")
+  else if op = "lnth" || op = "lnthcdr" then
+    match parseInt a1, handleOf s a2 with
+    | some n, some r =>
+      if op = "lnth" then
+        (match s.heap.nth n r with | .ok (x, h) => newHandle { s with heap := h } x | .error _ => (s, "ERR"))
+      else
+        (match s.heap.nthcdr n.toNat r with | .ok x => newHandle s x | .error _ => (s, "ERR"))
+    | _, _ => (s, "BADCMD")
+  else if op = "llast" then
+    match handleOf s a1 with
+    | some r =>
+      let n : Option (Option Int) := if a2.trimAscii.toString = "" || a2.trimAscii.toString = "none" then some none else (parseInt a2).map some
+      (match n with
+       | some n => (match s.heap.last r n with | .ok x => newHandle s x | .error _ => (s, "ERR"))
+       | none => (s, "BADCMD"))
+    | none => (s, "BADCMD")
+  else if op = "assoc" || op = "alist_get" then
+    match hs (a1 ++ " " ++ a2) with
+    | some [k, al] =>
+      let r := if op = "assoc" then s.heap.assoc k al else s.heap.alistGet k al none
+      (match r with | .ok (x, h) => newHandle { s with heap := h } x | .error _ => (s, "ERR"))
+    | some [k, al, d] =>
+      if op = "assoc" then (s, "BADCMD") else
+      (match s.heap.alistGet k al (some d) with | .ok (x, h) => newHandle { s with heap := h } x | .error _ => (s, "ERR"))
+    | _ => (s, "BADCMD")
+  else if op = "alist_from" || op = "plist_from" then
+    match hs (a1 ++ " " ++ a2) with
+    | some xs =>
+      let rec pairs : List Ref → Option (List (Ref × Ref))
+        | [] => some []
+        | k :: v :: rest => (pairs rest).map ((k, v) :: ·)
+        | _ => none
+      (match pairs xs with
+       | some kvs =>
+         if kvs.length > 3 then (s, "BADCMD") else
+         let r := if op = "alist_from" then s.heap.alistFrom kvs else s.heap.plistFrom kvs
+         (match r with | .ok (x, h) => newHandle { s with heap := h } x | .error _ => (s, "ERR"))
+       | none => (s, "BADCMD"))
+    | none => (s, "BADCMD")
   else if op = "deepcopy" then
     match handleOf s a1 with
     | some r => let (c, h) := s.heap.deepCopy r; newHandle { s with heap := h } c
